@@ -23,17 +23,19 @@ impl CacheKey for SKey {
     }
 }
 
-/// Key universe: shapes the crate's own key types produce (`ribbit:…`,
-/// `config:…`, `index:data.000:…` — the last two share the temp name
-/// `index:data.tmp` because the temp path is `with_extension("tmp")`), plus plain names.
-pub const KEYS: [&str; 7] = [
+/// Key universe: shapes the crate's own key types and `cascette-protocol`
+/// produce. `with_extension("tmp")` gives `index:data.000:…` / `index:data.001:…`
+/// the same temp name, and likewise a CDN archive and its `.index`.
+pub const KEYS: [&str; 9] = [
     "k1",
     "k2",
     "ribbit:us:versions:wow",
     "config:build:0123456789abcdef",
     "index:data.000:aaaa",
     "index:data.001:bbbb",
-    "a.b",
+    "api/ribbit/products/wow/versions",
+    "cdn/tpr/wow/data/ab/cd/abcd0123456789abcdef0123456789ab",
+    "cdn/tpr/wow/data/ab/cd/abcd0123456789abcdef0123456789ab.index",
 ];
 
 #[derive(Debug, Clone, Serialize, Deserialize)]
